@@ -38,7 +38,8 @@ TECHNIQUE = "deterministic simulation: polling a register-evolving peer model; r
 
 CHUNK = 64
 STEP_POLLS = {"quick": 2048, "thorough": 65536}
-OTHER_FILLS = [("zero", 0), ("ff", 0)] + [("bound", s) for s in range(1, 9)] + [("hash", s) for s in range(1, 9)]
+OTHER_FILLS = [("zero", 0), ("ff", 0)] + [("bound", s) for s in range(1, 9)] + [("hash", s) for s in range(1, 9)] + \
+              [("sp32a", s) for s in range(1, 5)] + [("sp32b", s) for s in range(1, 5)] + [("constw", s) for s in range(8)]
 OTHER_POLLS = {"quick": 1, "thorough": 4}
 _SPACE = {}
 
@@ -78,8 +79,8 @@ def make_case(tier, seed, index):
         ks = [((x * CHUNK + i) * mult + seed * 7919) & 0xFFFF for i in range(CHUNK)]
         return {"family": fam, "variant": var, "transport": tr, "fill": "step", "seed": seed & 0xFFFF, "ks": ks,
                 "benign": benign}
-    return {"family": fam, "variant": var, "transport": tr, "fill": fill, "seed": x * 31 + seed, "ks": [0, 1, 2, 3],
-            "benign": False}
+    return {"family": fam, "variant": var, "transport": tr, "fill": fill,
+            "seed": (x if fill == "constw" else x * 31 + seed), "ks": [0, 1, 2, 3], "benign": False}
 
 
 def simplify(case):
@@ -189,6 +190,14 @@ def run_case(case, oracle="plain"):
                             return
             else:
                 exp = D.derived_expectations(dev, fam, sensors, gconst)
+                for sid, want in D.pair_expectations(sensors, data).items():
+                    stats["values_checked"] += 1
+                    if data[sid] != want:
+                        key = f"C13:{fam}:pair:{sid}"
+                        if key not in {v["key"] for v in violations}:
+                            violations.append(viol(key, f"{fam}/{var}/{tr} fill={case['fill']} k={k}: {sid} = {data[sid]!r} "
+                                                   f"but the code {sid[:-6]} of the same result is {data[sid[:-6]]!r} "
+                                                   f"(table lookup gives {want!r})"))
                 for sid, ref in exp.items():
                     if sid not in data:
                         continue
